@@ -7,10 +7,10 @@ pub mod diagn {
     verus! {
     #[verifier::external_body]
     pub struct Message { _p: u8 }
-    /// diagn::Span's hand-written PartialEq is structural (proved below over the real impl)
-    impl PartialEqSpecImpl for Span {
-        open spec fn obeys_eq_spec() -> bool { true }
-        open spec fn eq_spec(&self, other: &Span) -> bool { *self == *other }
+    #[verifier::external_body]
+    pub struct Report { _p: u8 }
+    impl Report {
+        pub uninterp spec fn msgs(&self) -> nat;
     }
     impl Span {
         /// the span points into a file (it is not the dummy span)
@@ -37,6 +37,10 @@ pub mod expr {
     verus! {
     #[verifier::external_body]
     pub struct Expr { _p: u8 }
+    impl Clone for Expr {
+        #[verifier::external_body]
+        fn clone(&self) -> (r: Expr) ensures r == *self { unimplemented!() }
+    }
     #[verifier::external_body]
     pub struct Value { _p: u8 }
     }
@@ -56,10 +60,6 @@ pub mod syntax {
             ensures r.key() == (src@, src_file_handle, src_byte_offset)
         { unimplemented!() }
     }
-    impl<'src> Clone for Walker<'src> {
-        #[verifier::external_body]
-        fn clone(&self) -> (r: Walker<'src>) ensures r.key() == self.key() { unimplemented!() }
-    }
     }
 }
 pub mod asm {
@@ -68,13 +68,9 @@ pub mod asm {
     use crate::*;
     verus! {
     broadcast use {crate::std_gaps::axiom_vec_len_fits};
-    /// stand-in for asm::ItemDefs: only the fields the verified functions read
-    pub struct ItemDefs { pub ruledefs: DefList<Ruledef>, pub ruledef_map: RuledefMap }
-    /// opaque stand-in for the prefix index (its contents are the subject of U-rulemap)
     #[verifier::external_body]
-    pub struct RuledefMap { _p: u8 }
-    pub type RuledefMapPrefix = [char; MAX_PREFIX_SIZE];
-    //@@INCLUDE u_matchinstr/spec.rs
+    pub struct ItemDecls { _p: u8 }
+    //@@INCLUDE u_ruledef/spec.rs
     //@@ITEMS asm
     }
 }
